@@ -174,7 +174,10 @@ def step (s : State) : Op → Except Stop (State × Out)
     | .ok (j', evs, resp, core) =>
       match resp with
       | .ok _ =>
-        if ntsOk desc core nts then coreStep { s with job := j' } (.newTasks nts) [] evs (.submit resp)
+        if ntsOk desc core nts then
+          -- `handle_new_tasks` returns early for an empty `TaskSubmit` (`on_new_tasks` asserts non-emptiness)
+          if nts.isEmpty then .ok ({ s with job := j' }, { evs := evs, resp := .submit resp })
+          else coreStep { s with job := j' } (.newTasks nts) [] evs (.submit resp)
         else .error .badSubmit
       | _ => .ok ({ s with job := j' }, { evs := evs, resp := .submit resp })
   | .close j =>
